@@ -225,6 +225,7 @@ func NewWorld(k *Kernel) *World {
 		panic(err)
 	}
 	w := &World{K: k, Net: NewNet(k), Journal: &Journal{}, Keys: keys, Nodes: map[string]*Node{}}
+	w.Net.Journal = w.Journal
 	return w
 }
 
